@@ -363,6 +363,36 @@ theorem root_step_halves {o : Interp} {m : Int} {s s' : RootState} {yp : ℚ}
     simp only [bind, Except.bind, pure, Except.pure] at h
     split_ifs at h <;> (injection h with h; subst h; simp only; ring)
 
+/-- What `root` does before the loop, given its limits and the interpolant at them. -/
+theorem root_entry {o : Interp} {xl xh A B yl yh : ℚ} (m : Int)
+    (hlim : root_limits o xl xh = .ok (A, B)) (hyl : call o A = .ok yl) (hyh : call o B = .ok yh) :
+    (|yl| < o.tol → root o xl xh m = .ok A) ∧
+    (¬ |yl| < o.tol → |yh| < o.tol → root o xl xh m = .ok B) ∧
+    (¬ |yl| < o.tol → ¬ |yh| < o.tol → 0 < yl * yh → root o xl xh m = .error .valueError) := by
+  unfold root
+  rw [hlim]
+  simp only [bind, Except.bind, hyl, hyh, plt, pabs_eq, zero_lit']
+  refine ⟨fun h => ?_, fun h1 h2 => ?_, fun h1 h2 h3 => ?_⟩
+  · simp [h, pure, Except.pure]
+  · simp [h1, h2, pure, Except.pure]
+  · simp [h1, h2, h3]
+
+/-- Limits closer than the tolerance are refused. -/
+theorem root_limits_equal {o : Interp} (hx : o.x ≠ []) {xl xh : ℚ} (hnd : ¬ (xl = 0 ∧ xh = 0))
+    (hc : |xl - xh| < o.tol) : root_limits o xl xh = .error .valueError := by
+  unfold root_limits
+  cases hxs : o.x with
+  | nil => exact absurd hxs hx
+  | cons x0 xr =>
+    simp only
+    have c : (peq xl 0 && peq xh 0) = false := by
+      simp only [peq, Bool.and_eq_false_iff, decide_eq_false_iff_not]
+      by_cases hxl : xl = 0
+      · right; exact fun e => hnd ⟨hxl, e⟩
+      · left; exact hxl
+    rw [c]
+    simp only [Bool.false_eq_true, if_false, plt, pabs_eq, hc, decide_true, if_true]
+
 theorem root_ok_limits {o : Interp} {xl xh v : ℚ} {m : Int} (hr : root o xl xh m = .ok v) :
     ∃ A B, root_limits o xl xh = .ok (A, B) := by
   unfold root at hr
